@@ -176,20 +176,29 @@ impl CacheRead {
         Ok(mode)
     }
 
+    /// Whether this cache entry holds an object called `name`.
+    fn has_object(&self, name: &str) -> bool {
+        self.zip.file_names().any(|n| n == name)
+    }
+
     /// Get the stdout from this cache entry, if it exists.
-    pub fn get_stdout(&mut self) -> Vec<u8> {
+    pub fn get_stdout(&mut self) -> Result<Vec<u8>> {
         self.get_bytes("stdout")
     }
 
     /// Get the stderr from this cache entry, if it exists.
-    pub fn get_stderr(&mut self) -> Vec<u8> {
+    pub fn get_stderr(&mut self) -> Result<Vec<u8>> {
         self.get_bytes("stderr")
     }
 
-    fn get_bytes(&mut self, name: &str) -> Vec<u8> {
+    /// An object that was never stored reads as empty; one that is in the
+    /// entry but cannot be read is an error, like any other damaged object.
+    fn get_bytes(&mut self, name: &str) -> Result<Vec<u8>> {
         let mut bytes = Vec::new();
-        drop(self.get_object(name, &mut bytes));
-        bytes
+        if self.has_object(name) {
+            self.get_object(name, &mut bytes)?;
+        }
+        Ok(bytes)
     }
 
     pub async fn extract_objects<T>(
@@ -223,8 +232,14 @@ impl CacheRead {
                         }
                     }
                     (Err(e), false) => return Err(e),
-                    // skip if no object found and it's optional
-                    (Err(_), true) => continue,
+                    // skip if no object found and it's optional; an object
+                    // that is there but cannot be read is an error
+                    (Err(e), true) => {
+                        if self.has_object(&key) {
+                            return Err(e);
+                        }
+                        continue;
+                    }
                 }
             }
             Ok(())
